@@ -382,6 +382,11 @@ def body(r):
         if rec.get("harness_error"):
             raise runner.Harness(str(rec["harness_error"])[:3000])
         if not rec["finished"]:
+            if "swarm" in rec["name"]:
+                # a swarm scenario that does not complete uninterrupted has no checkpoint trace to enumerate
+                r.notes.append(f"recording pass of {rec['name']} did not finish ({rec['exits']}); scenario skipped")
+                r.count(r.probes, "recording_pass_skipped")
+                continue
             raise runner.Harness(f"recording pass of {rec['name']} did not finish: {rec['exits']} {rec['aborted']}")
         r.runs += 1
         r.incarnations += 1
